@@ -1,7 +1,11 @@
 (* Entry points of the extracted model: [run cmd arg]. *)
 From Coq Require Import NArith List Bool.
 From PV Require Import Base.Sx Model.Forest Model.Table Model.LRDriver Model.Scan Model.Parser
+<<<<<<< HEAD
   Validators.TableStruct Validators.ForestSound Validators.TableComplete Extract.Codec.
+=======
+  Validators.TableStruct Extract.Codec Extract.RunC19.
+>>>>>>> build-C19
 Import ListNotations.
 Local Open Scope N_scope.
 
@@ -63,8 +67,15 @@ Definition run (cmd : N) (arg : sx) : sx :=
   | 3 => run_table_struct arg
   | 4 => run_lr_parse arg
   | 5 => run_tree_ok arg
+<<<<<<< HEAD
   | 6 => run_forest_ok arg
   | 7 => run_forest_trees arg
   | 8 => run_table_complete arg
+=======
+  | 190 => run_c19_unescape arg
+  | 191 => run_c19_build arg
+  | 192 => run_c19_match arg
+  | 193 => run_c19_sort arg
+>>>>>>> build-C19
   | _ => L [A 999999]
   end.
